@@ -21,9 +21,13 @@ Definition no_delete (chs : list change) : Prop :=
 Lemma no_delete_app l1 l2 : no_delete l1 -> no_delete l2 -> no_delete (l1 ++ l2).
 Proof. intros H1 H2 ch Hin. apply in_app_or in Hin. destruct Hin; [apply H1|apply H2]; assumption. Qed.
 
+Definition ch_path (ch : change) : Z :=
+  match ch with CInsert p _ => p | CDelete p _ => p | CModify p _ _ _ => p end.
+
 Section Frame.
   Variable cf : cfg.
   Variable R : shared -> shared -> Prop.
+  Variable Allowed : Z -> Prop.          (* the paths whose history object may be created *)
   Hypothesis R_refl : forall s, R s s.
   Hypothesis R_trans : forall a b c, R a b -> R b c -> R a c.
   Hypothesis R_ut : forall hd s cur prev d s', update_time cf hd s cur prev d = Ok s' -> R s s'.
@@ -133,12 +137,12 @@ Section Frame.
 
   (* ---------- Consume without deletions ---------- *)
   Hypothesis R_dels : forall s x, R s (with_dels s x).
-  Hypothesis R_create : forall s p, c_files cf = true -> aget (s_names s) p = None -> R s (create s p).
+  Hypothesis R_create : forall s p, Allowed p -> c_files cf = true -> aget (s_names s) p = None -> R s (create s p).
 
-  Lemma handle_insertion_R author b s path lines b' s' :
+  Lemma handle_insertion_R author b s path lines b' s' : Allowed path ->
     handle_insertion cf author b s path lines = Ok (b', s') -> R s s'.
   Proof.
-    unfold handle_insertion. intros E. destruct (aget (b_files b) path); [discriminate|].
+    unfold handle_insertion. intros Hal E. destruct (aget (b_files b) path); [discriminate|].
     set (hs := if c_files cf then match aget (s_names s) path with
                  | Some h => (Some h, s)
                  | None => (Some (s_next s), with_fhs (with_names s (aset (s_names s) path (s_next s)) (s_next s + 1)) (aset (s_fhs s) (s_next s) []))
@@ -152,10 +156,10 @@ Section Frame.
     destruct (b_tick b =? mark); injection E as _ <-; apply R_dels.
   Qed.
 
-  Lemma handle_modification_R author b s path o n diffs b' s' :
+  Lemma handle_modification_R author b s path o n diffs b' s' : Allowed path ->
     handle_modification cf author b s path o n diffs = Ok (b', s') -> R s s'.
   Proof.
-    unfold handle_modification. intros E.
+    unfold handle_modification. intros Hal E.
     set (b0 := if b_tick b =? mark then with_merged b (aset (b_merged b) path true) else b) in *.
     destruct (aget (b_files b0) path) as [f|]; [|eapply handle_insertion_R; eauto].
     destruct (negb (Z.of_nat (length (f_vals f)) =? o)); [discriminate|].
@@ -164,23 +168,25 @@ Section Frame.
     injection E as _ <-. apply hm_loop_R in E1. exact (proj2 E1).
   Qed.
 
-  Lemma handle_changes_R author : forall chs b s b' s', no_delete chs ->
+  Lemma handle_changes_R author : forall chs b s b' s', no_delete chs -> (forall ch, In ch chs -> Allowed (ch_path ch)) ->
     handle_changes cf author chs b s = Ok (b', s') -> R s s'.
   Proof.
-    induction chs as [|ch chs IH]; intros b s b' s' Hnd E; cbn [handle_changes] in E.
+    induction chs as [|ch chs IH]; intros b s b' s' Hnd Hal E; cbn [handle_changes] in E.
     - injection E as _ <-. apply R_refl.
     - assert (Hnd' : no_delete chs) by (intros x Hx; apply Hnd; right; exact Hx).
-      pose proof (Hnd ch (or_introl eq_refl)) as Hch. destruct ch as [p n|p n|p o n d]; [|destruct Hch|].
+      assert (Hal' : forall ch0, In ch0 chs -> Allowed (ch_path ch0)) by (intros x Hx; apply Hal; right; exact Hx).
+      pose proof (Hal ch (or_introl eq_refl)) as Hal0.
+      pose proof (Hnd ch (or_introl eq_refl)) as Hch. destruct ch as [p n|p n|p o n d]; [|destruct Hch|]; cbn [ch_path] in Hal0.
       + destruct (handle_insertion cf author b s p n) as [[b1 s1]| |] eqn:E1; try discriminate.
         eapply R_trans; [eapply handle_insertion_R; eauto|eapply IH; eauto].
       + destruct (handle_modification cf author b s p o n d) as [[b1 s1]| |] eqn:E1; try discriminate.
         eapply R_trans; [eapply handle_modification_R; eauto|eapply IH; eauto].
   Qed.
 
-  Lemma consume_R author tick im chs b s b' s' : no_delete chs ->
+  Lemma consume_R author tick im chs b s b' s' : no_delete chs -> (forall ch, In ch chs -> Allowed (ch_path ch)) ->
     consume cf author tick im chs b s = Ok (b', s') -> R s s'.
   Proof.
-    unfold consume. intros Hnd E.
+    unfold consume. intros Hnd Hal E.
     destruct (handle_changes cf author chs _ s) as [[b2 s2]| |] eqn:E2; try discriminate.
     injection E as _ <-. eapply handle_changes_R; eauto.
   Qed.
@@ -213,7 +219,8 @@ Proof. intros [A1 A2] [B1 B2]. split; congruence. Qed.
 (* ---------- instance 2: the names map grows, handles stay below the counter and injective ---------- *)
 Definition NI (s : shared) : Prop :=
   (forall p k, aget (s_names s) p = Some k -> k < s_next s) /\
-  (forall p p' k, aget (s_names s) p = Some k -> aget (s_names s) p' = Some k -> p = p').
+  (forall p p' k, aget (s_names s) p = Some k -> aget (s_names s) p' = Some k -> p = p') /\
+  NoDup (map fst (s_names s)).
 
 Definition nm_ext (s s' : shared) : Prop :=
   (forall p k, aget (s_names s) p = Some k -> aget (s_names s') p = Some k) /\ (NI s -> NI s').
@@ -232,7 +239,7 @@ Lemma nm_ext_create s p : aget (s_names s) p = None -> nm_ext s (create s p).
 Proof.
   intros En. unfold nm_ext, NI, create. cbn [s_names s_next with_fhs with_names]. split.
   - intros q k Eq. rewrite aget_aset. destruct (Z.eqb_spec p q); [congruence|exact Eq].
-  - intros [N1 N2]. split.
+  - intros (N1 & N2 & N3). split; [|split].
     + intros q k. rewrite aget_aset. destruct (Z.eqb_spec p q).
       * intros E; injection E as <-. lia.
       * intros E. specialize (N1 q k E). lia.
@@ -240,6 +247,7 @@ Proof.
       * intros E1 E2. injection E1 as <-. specialize (N1 _ _ E2). lia.
       * intros E1 E2. injection E2 as <-. specialize (N1 _ _ E1). lia.
       * apply N2.
+    + apply nodup_aset. exact N3.
 Qed.
 
 (* ---------- every tracked file carries the handle of its path ---------- *)
@@ -272,7 +280,7 @@ Section HGood.
   Proof.
     intros E Hg.
     assert (Hext : nm_ext s s').
-    { eapply (handle_insertion_R cf nm_ext nm_ext_refl nm_ext_trans (nm_ext_ut cf) nm_ext_dels); eauto.
+    { eapply (handle_insertion_R cf nm_ext (fun _ => True) nm_ext_refl nm_ext_trans (nm_ext_ut cf) nm_ext_dels); eauto.
       intros; apply nm_ext_create; auto. }
     split; [exact Hext|].
     unfold handle_insertion in E. destruct (aget (b_files b) path) eqn:Eold; [discriminate|].
